@@ -3,7 +3,7 @@ import shutil, tempfile
 from .regexcommon import *
 from . import c03
 
-LEVEL = "other"
+LEVEL = "proof"
 
 DRIVER = '''package main
 
@@ -72,6 +72,186 @@ func run(data []byte) (res string) {
 	}
 }
 '''
+
+READER_HOOK = '''package %s
+
+import (
+	"bytes"
+	"fmt"
+	"io"
+	"strconv"
+	"strings"
+)
+
+type verifChunked struct {
+	r io.Reader
+	c int
+}
+
+func (v *verifChunked) Read(p []byte) (int, error) {
+	if len(p) > v.c {
+		p = p[:v.c]
+	}
+	return v.r.Read(p)
+}
+
+// VerifReader drives the emitted two-half reader call by call: n = next, r<size> = Retract of size bytes,
+// l = Lexeme, s = Skip. half = size of a buffer half, chunk = most bytes the source hands out per Read (0: no limit).
+func VerifReader(half, chunk int, data []byte, ops string) (res string) {
+	defer func() {
+		if r := recover(); r != nil {
+			res = "PANIC " + fmt.Sprint(r)
+		}
+	}()
+	var src io.Reader = bytes.NewReader(data)
+	if chunk > 0 {
+		src = &verifChunked{src, chunk}
+	}
+	in, err := newInput("f", src, half)
+	if err != nil {
+		return "NEWERR " + err.Error()
+	}
+	var out []string
+	for _, op := range strings.Split(ops, ",") {
+		switch {
+		case op == "n":
+			b, err := in.next()
+			if err == io.EOF {
+				out = append(out, "E")
+			} else if err != nil {
+				out = append(out, "X")
+			} else {
+				out = append(out, strconv.Itoa(int(b)))
+			}
+		case op == "l":
+			lex, _ := in.Lexeme()
+			bs := make([]string, len(lex))
+			for i := 0; i < len(lex); i++ {
+				bs[i] = strconv.Itoa(int(lex[i]))
+			}
+			out = append(out, "L"+strings.Join(bs, "."))
+		case op == "s":
+			in.Skip()
+			out = append(out, "-")
+		case strings.HasPrefix(op, "r"):
+			size, _ := strconv.Atoi(op[1:])
+			in.runeSizes.Push(size)
+			in.Retract()
+			out = append(out, "-")
+		}
+	}
+	return strings.Join(out, ",")
+}
+'''
+
+READER_MAIN = '''package main
+
+import (
+	"bufio"
+	"encoding/hex"
+	"os"
+	"strconv"
+	"strings"
+
+	lx "emitted/%s"
+)
+
+func main() {
+	in := bufio.NewReaderSize(os.Stdin, 1<<22)
+	out := bufio.NewWriterSize(os.Stdout, 1<<20)
+	defer out.Flush()
+	for {
+		line, err := in.ReadString('\\n')
+		f := strings.Fields(line)
+		if len(f) == 4 {
+			half, _ := strconv.Atoi(f[0])
+			chunk, _ := strconv.Atoi(f[1])
+			var data []byte
+			if f[2] != "-" {
+				data, _ = hex.DecodeString(f[2])
+			}
+			out.WriteString(lx.VerifReader(half, chunk, data, f[3]) + "\\n")
+		}
+		if err != nil {
+			break
+		}
+	}
+}
+'''
+
+
+def reader_case(rng, n):
+    """(source bytes, ops) - a call sequence within the reader's contract: NUL-free source; a Retract gives back bytes
+    of the pending lexeme and leaves at most one half outstanding; at a Lexeme, lexeme plus look-ahead fit into a half"""
+    ln = rng.choice([0, 1, n - 1, n, n + 1, 2 * n - 1, 2 * n, 2 * n + 1, 3 * n, 4 * n + 1, rng.randrange(0, 6 * n + 2)])
+    ln = max(0, ln)
+    data = bytes((rng.choice([10, 32, 97, 98, 255, 128]) if rng.random() < 0.5 else rng.randrange(1, 256)) for _ in range(ln))
+    k = p = kb = 0
+    ops = []
+    steps = rng.choice([ln + 3, 2 * ln + 5, 3 * ln + 8])
+    for _ in range(min(steps, 40000)):
+        room = kb + n - (k + p)            # what may still be read before the lexeme no longer fits
+        c = rng.random()
+        if c < 0.62 and (room > 0 or p > 0 or rng.random() < 0.1):
+            ops.append("n")
+            if k < ln:
+                k += 1; p = max(0, p - 1)
+        elif c < 0.80 and min(k - kb, n - p) >= 1:
+            size = rng.randint(1, min(k - kb, n - p, 4 if rng.random() < 0.7 else n))
+            ops.append("r%d" % size); k -= size; p += size
+        elif c < 0.93 and k + p <= kb + n:
+            ops.append("l"); kb = k
+        else:
+            ops.append("s"); kb = k
+    return data, ops
+
+
+def reader_correspondence(ctx, d, pkg, env, stats, quick):
+    """the reader model (Emerge.Reader, about which C19_reader is proved) against the emitted input.go"""
+    rd = os.path.join(d, pkg + "rd")
+    shutil.copytree(os.path.join(d, pkg), rd)
+    open(os.path.join(rd, "zz_verif_reader.go"), "w").write(READER_HOOK % pkg)
+    md = os.path.join(d, "cmdreader"); os.makedirs(md)
+    open(os.path.join(md, "main.go"), "w").write(READER_MAIN % (pkg + "rd"))
+    rc, out = sh(["go", "build", "-o", os.path.join(d, "bin_reader"), "./cmdreader"], cwd=d, env=env, timeout=600)
+    if rc != 0:
+        ctx.add_broken("the reader driver no longer compiles against the emitted input.go (newInput / next / Retract / Lexeme / Skip / runeSizes)", out[-1500:])
+        return
+    rng = ctx.rng
+    lines = []
+    for n in [1, 2, 3, 4, 5, 8, 16]:
+        for _ in range(60 if quick else 600):
+            data, ops = reader_case(rng, n)
+            lines.append("%d %d %s %s" % (n, rng.choice([0, 0, 1, 2, 3, n + 1]), hx(data), ",".join(ops) or "s"))
+    for _ in range(4 if quick else 40):
+        data, ops = reader_case(rng, 4096)
+        lines.append("4096 %d %s %s" % (rng.choice([0, 1000, 4095]), hx(data), ",".join(ops) or "s"))
+    p = subprocess.run([os.path.join(d, "bin_reader")], input=("\n".join(lines) + "\n").encode(), stdout=subprocess.PIPE, stderr=subprocess.PIPE, timeout=600)
+    got = p.stdout.decode().split("\n")[:-1]
+    if p.returncode != 0 or len(got) != len(lines):
+        ctx.add_violation("the emitted reader crashed under a call sequence within its contract", {"stderr": p.stderr.decode()[-1500:]})
+        return
+    want = ctx.run_model_par("reader", [" ".join([l.split(" ")[0]] + l.split(" ")[2:]) for l in lines])
+    nc = 0
+    for l, g, w in zip(lines, got, want):
+        stats["reader_sequences"] = stats.get("reader_sequences", 0) + 1
+        stats["reader_calls"] = stats.get("reader_calls", 0) + l.count(",") + 1
+        conc, _, abst = w.partition(" | ")
+        n, chunk, hexd, ops = l.split(" ")
+        rec = {"half_size": int(n), "source_read_chunk": int(chunk), "source_hex": hexd if len(hexd) < 400 else hexd[:400] + "…", "source_length": 0 if hexd == "-" else len(hexd) // 2,
+               "calls": ops if len(ops) < 600 else ops[:600] + "…", "emitted_reader": g[:600], "reader_model": conc[:600], "plain_stream": abst[:600]}
+        if abst == "CONTRACT":
+            ctx.add_broken("the reader-case generator left the reader's contract (generator and model disagree about the contract)", json.dumps(rec)[:1500])
+            break
+        if g != abst:
+            ctx.add_violation("the emitted two-half reader does not return what a cursor over the whole source returns (next/Retract/Lexeme/Skip within the contract)", rec)
+            break
+        if g != conc:
+            nc += 1
+            if nc <= 2:
+                ctx.add_broken("correspondence: the reader model (Emerge.Reader) and the emitted input.go disagree", json.dumps(rec)[:1500])
+    stats["reader_disagreements"] = stats.get("reader_disagreements", 0) + nc
+
 
 TOKNAMES = ["ID", "NUM", "KW", "OP", "WS", "EOL", "COMMENT", "STR", "AB"]
 PATTERNS = {"ID": ["[a-z]+", "[a-z][a-z0-9_]*", "[a-zA-Z_]+", "[a-z\\x00E0-\\x00FF]+"], "NUM": ["[0-9]+", "[0-9]+(\\.[0-9]+)?", "-?[0-9]+"],
@@ -189,6 +369,8 @@ def run(ctx):
                 continue
             stats["packages_compiled"] += 1
             made += 1
+            if made <= (1 if quick else 3):
+                reader_correspondence(ctx, d, pkg, env, stats, quick)
             ntext = 300 if quick else 1500
             small_texts = [gen_text(rng, dfa, 5, True) for _ in range(ntext)]
             std_texts = [gen_text(rng, dfa, 12, False) for _ in range(ntext // 2)]
@@ -233,10 +415,10 @@ def run(ctx):
     finally:
         shutil.rmtree(root, ignore_errors=True)
     cov = {"evaluations": stats["texts"], "distinct_nontrivial": len(distinct), "programs": stats["packages_compiled"], "disagreements_checked": stats["texts"],
-           "rule": "seeded random specifications (identifier/number/keyword/operator/string/comment patterns incl. non-ASCII ranges and automata that re-enter their start state, skipped terminals WS/EOL/COMMENT, literals); each emitted package is compiled twice - as emitted (buffer 4096) and with the reader's buffer constant set to 8 - with a small driver that prints terminal, lexeme, offset, line, column per token and the final error; texts: random walks through the automaton joined by blanks/newlines/nothing, near-misses and stray characters, multi-byte characters, with and without final newline, plus paddings placing tokens and the end of input on and around both 4096-byte buffer boundaries; expected output = maximal munch over Spec.DFA()'s automaton (Emerge.Emitted.scan); non-trivial = distinct (package, text)",
+           "rule": "seeded random specifications (identifier/number/keyword/operator/string/comment patterns incl. non-ASCII ranges and automata that re-enter their start state, skipped terminals WS/EOL/COMMENT, literals); each emitted package is compiled twice - as emitted (buffer 4096) and with the reader's buffer constant set to 8 - with a small driver that prints terminal, lexeme, offset, line, column per token and the final error; texts: random walks through the automaton joined by blanks/newlines/nothing, near-misses and stray characters, multi-byte characters, with and without final newline, plus paddings placing tokens and the end of input on and around both 4096-byte buffer boundaries; expected output = maximal munch over Spec.DFA()'s automaton (Emerge.Emitted.scan); reader: random call sequences within the contract (next / Retract of 1..n bytes / Lexeme / Skip) on NUL-free sources of lengths around every multiple of the half size, source delivered in chunks of 1..n+1 bytes, compared with Emerge.Reader.cRun and with the plain stream aRun; non-trivial = distinct (package, text)",
            "samples": samples or ["-"], "outcomes": stats,
-           "explanation": "proof: for every automaton the model of the emitted NextToken is maximal munch with exact partition and positions (Emerge/Props/C19.lean); translation validation: the compiled artefact is run against that model per text; the reader (input.go.tmpl) is exercised at every alignment by the 8-byte-buffer variant but its refinement to a plain stream is not proved",
-           "trusted_base": TRUSTED_BASE + ["Go compiler/runtime for the emitted package", "the reader template is validated by running it (8-byte and 4096-byte buffers), not proved"]}
+           "explanation": "proof: for every automaton the model of the emitted NextToken is maximal munch with exact partition and positions (Emerge/Props/C19.lean); translation validation: the compiled artefact is run against that model per text; the reader (input.go.tmpl) is proved to be the plain byte stream for every half size, length and alignment (C19_reader, model Emerge.Reader) and that model is driven call by call against the emitted input.go (half sizes 1..16 and 4096, chunked sources); the UTF-8 assembly of Next from next is exercised, not proved",
+           "trusted_base": TRUSTED_BASE + ["Go compiler/runtime for the emitted package", "hand model of the reader (Emerge.Reader) validated against the emitted input.go by the call-by-call correspondence"]}
     return ctx.finish(LEVEL, cov, ["inputs are valid UTF-8 without NUL (the reader reserves NUL); a pending lexeme longer than the buffer half is outside the reader's contract (tokens are kept short in the 8-byte variant)"])
 
 
